@@ -300,6 +300,47 @@ theorem inv_delete (st : St) (hinv : Inv st) (i : Nat) (k : String) : Inv (qstep
       simpa using hk
     · exact hinv.2 i k' e hs hold
 
+/-- `expire` with a non-positive time (as repaired, D37): the server deletes the key, the caller remembers "absent" -/
+theorem inv_expire_zero (st : St) (hinv : Inv st) (i : Nat) (k : String) :
+    Inv (deliverAll (srvCmd ({ st with cl := upd st.cl i ((st.cl i).lset (now st) k .absent none) } : St) (.pexpire k 0)).1) := by
+  generalize hst0 : ({ st with cl := upd st.cl i ((st.cl i).lset (now st) k .absent none) } : St) = st0
+  have h0srv : st0.srv = st.srv := by subst hst0; rfl
+  have h0enc : st0.isEnc = st.isEnc := by subst hst0; rfl
+  have h0cl : ∀ j, j ≠ i → st0.cl j = st.cl j := by intro j hj; subst hst0; simp [upd, hj]
+  have hcli : st0.cl i = (st.cl i).lset (now st) k .absent none := by subst hst0; simp [upd]
+  have h0i : (st0.cl i).queue = [] ∧ (st0.cl i).started = (st.cl i).started ∧ (st0.cl i).tracking = (st.cl i).tracking := by
+    rw [hcli]; exact ⟨(hinv.1 i).1, rfl, rfl⟩
+  generalize hst1 : (srvCmd st0 (.pexpire k 0)).1 = st1
+  obtain ⟨a1, a2, a3, a4, a5, b1, b2, b3, b4⟩ := after_write st st0 st1 st1 i (.pexpire k 0) rfl hinv h0srv h0enc h0cl h0i hst1.symm
+    rfl rfl (fun _ _ => rfl) ⟨rfl, rfl, rfl⟩
+  refine inv_after st st1 i _ hinv a1 a2 a3 a4 a5 ?_
+  intro hs
+  have htr : (st.cl i).tracking = true := ((hinv.1 i).2 hs).1
+  have hnm : (st.cl i).noMarks (now st) := ((hinv.1 i).2 hs).2
+  have hq := a3 i
+  rw [htr, if_pos rfl] at hq
+  have hm1 : (st1.cl i).noMarks (now st) := by
+    intro k'; simp only [Client.marked, b2, hcli, Client.lset]; exact hnm k'
+  obtain ⟨g1, g2⟩ := deliverClient_keys (now st) (st1.cl i) _ hq hm1
+  refine ⟨?_, ?_⟩
+  · intro k'; simp only [Client.marked, g2]; exact hm1 k'
+  · intro k' e he
+    have hk : k' ∉ touched st.srv (.pexpire k 0) := by
+      intro hk; simp [Client.lfind, g1 k', hk] at he
+    have he' : ((st.cl i).lset (now st) k .absent none).lfind (now st) k' = some e := by
+      simpa [Client.lfind, g1 k', hk, b1, hcli] using he
+    unfold agreeEntry
+    rw [a4 k' hk]
+    rcases lfind_lset he' with ⟨rfl, hval⟩ | ⟨hne, hold⟩
+    · rw [hval]
+      -- not announced, so it was not there
+      apply srvValue_of_absent
+      simp only [touched] at hk
+      cases hp : st.srv.ks.present k' with
+      | false => rfl
+      | true => simp [hp] at hk
+    · exact hinv.2 i k' e hs hold
+
 /-- every stored key is listed (so that expiry can find it) -/
 def DomOK (s : KS) : Prop := ∀ k, (s.m k).isSome = true → k ∈ s.dom
 
@@ -343,6 +384,11 @@ theorem domOK_exec (s : Srv) (c : Cmd) (hc : csCmd c = true) (h : DomOK s.ks) : 
           · simp only [hc1, if_false]; exact a
         | _ => exact h
       · simpa [Srv.exec, hl] using h
+    | some .unlock, [tok], _ =>
+      rcases exec_unlock_cases s k0 tok with h' | h' | ⟨_, h'⟩ <;> rw [h']
+      · exact h
+      · exact h
+      · exact domOK_delMany h _
   | set k v px c => exact domOK_execPrim s _ hc h
   | unlink ks => exact domOK_execPrim s _ hc h
   | pexpire k ms => exact domOK_execPrim s _ hc h
@@ -911,9 +957,14 @@ theorem inv_expire_with (st : St) (hinv : Inv st) (i : Nat) (k : String) (ms : N
     unfold agreeEntry at this ⊢
     rw [hval k']; exact this
 
-theorem inv_expire (st : St) (hinv : Inv st) (i : Nat) (k : String) (ms : Nat) (hms : 0 < ms) :
+theorem inv_expire (st : St) (hinv : Inv st) (i : Nat) (k : String) (ms : Nat) :
     Inv (qstep st (.expire i k ms)).1 := by
-  simp only [qstep, step]
+  by_cases hz : ms = 0
+  · subst hz
+    simp only [qstep, step, if_true]
+    exact inv_expire_zero st hinv i k
+  have hms : 0 < ms := Nat.pos_of_ne_zero hz
+  simp only [qstep, step, hz, if_false]
   split
   · rename_i v dl hf
     exact inv_expire_with st hinv i k ms hms _ (by rw [hf])
@@ -967,8 +1018,7 @@ theorem gmFold_ok (st : St) (c : Client) (ks : List String) :
     obtain ⟨h1, h2⟩ := gmStep_ok st c c' a hf hP
     exact ih _ h1 h2
 
-theorem inv_getMany (st : St) (hinv : Inv st) (i : Nat) (ks : List String) : Inv (qstep st (.getMany i ks)).1 := by
-  simp only [qstep, step]
+theorem inv_getManyCore (st : St) (hinv : Inv st) (i : Nat) (ks : List String) : Inv (deliverAll (getManyCore st i ks).1) := by
   show Inv (deliverAll ({ st with cl := upd st.cl i (ks.foldl (gmStep st (st.cl i)) (st.cl i)) } : St))
   by_cases hs : (st.cl i).started = true
   · obtain ⟨⟨q1, q2, q3, q4⟩, hP⟩ := gmFold_ok st (st.cl i) ks (st.cl i) ⟨rfl, rfl, rfl, rfl⟩ (fun k' e he => hinv.2 i k' e hs he)
@@ -1000,11 +1050,13 @@ theorem inv_getMany (st : St) (hinv : Inv st) (i : Nat) (ks : List String) : Inv
       exact ⟨q1.trans (hinv.1 i).1, q2, q3, fun hs' => absurd hs' hs⟩
     · intro hs'; exact absurd hs' hs
 
+theorem inv_getMany (st : St) (hinv : Inv st) (i : Nat) (ks : List String) : Inv (qstep st (.getMany i ks)).1 :=
+  inv_getManyCore st hinv i ks
+
 /-- under agreement `get_many` answers what the server holds, key by key -/
-theorem getMany_eq_server (st : St) (ha : Agree st) (i : Nat) (ks : List String) :
-    (step st (.getMany i ks)).2 = .vals (ks.map (srvValue st)) := by
-  simp only [step]
-  congr 1
+theorem getManyCore_eq_server (st : St) (ha : Agree st) (i : Nat) (ks : List String) :
+    (getManyCore st i ks).2 = ks.map (srvValue st) := by
+  simp only [getManyCore]
   apply List.map_congr_left
   intro k _
   cases hs : (st.cl i).started with
@@ -1020,22 +1072,9 @@ theorem getMany_eq_server (st : St) (ha : Agree st) (i : Nat) (ks : List String)
       | val x => simp only [agreeEntry] at this; simp [this]
       | absent => simp only [agreeEntry] at this; simp [this]
 
-/-- the commands for which preservation of the quiescent-point invariant is proved -/
-def Covered (isEnc : String → Bool) : Op → Prop
-  | .get _ _ => True
-  | .exists_ _ _ => True
-  | .set _ _ v _ _ => (match v with | .int _ => True | .obj h => isEnc h = true)
-  | .delete _ _ => True
-  | .getMany _ _ => True
-  | .incr _ _ _ ttl => pxOf ttl = none            -- (the TTL-arming variant goes through the Lua script: not yet covered)
-  | .deleteMany _ _ => True
-  | .deleteMatch _ _ => True
-  | .expire _ _ ms => 0 < ms                      -- (`expire(k, 0)` deletes the key on the server: outside the alphabet)
-  | .clear _ => True
-  | .drop _ => True
-  | .reconnect _ => True
-  | .adv _ => True
-  | _ => False
+theorem getMany_eq_server (st : St) (ha : Agree st) (i : Nat) (ks : List String) :
+    (step st (.getMany i ks)).2 = .vals (ks.map (srvValue st)) := by
+  simp only [step, getManyCore_eq_server st ha i ks]
 
 /-- the full invariant carried along a history -/
 def Inv2 (st : St) : Prop := Inv st ∧ DomOK st.srv.ks
@@ -1048,74 +1087,10 @@ theorem domOK_adv {s : KS} (h : DomOK s) (dt : Nat) : DomOK (s.adv dt) := by
   | none => simp [hm] at hk
   | some e => rfl
 
-theorem qstep_isEnc (st : St) (op : Op) (hc : Covered st.isEnc op) : (qstep st op).1.isEnc = st.isEnc := by
-  cases op <;> simp [Covered] at hc <;> simp only [qstep, deliverAll, step] <;> (repeat' split) <;> rfl
-
-theorem inv2_qstep (st : St) (h : Inv2 st) (op : Op) (hc : Covered st.isEnc op) : Inv2 (qstep st op).1 := by
-  obtain ⟨hinv, hdom⟩ := h
-  cases op with
-  | get i k =>
-    refine ⟨inv_get st hinv i k, ?_⟩
-    simp only [qstep, deliverAll, step]; (repeat' split) <;> exact hdom
-  | exists_ i k =>
-    refine ⟨inv_exists st hinv i k, ?_⟩
-    simp only [qstep, deliverAll, step]; (repeat' split) <;> exact hdom
-  | set i k v ttl cond =>
-    have hdec : Dec st v := by cases v <;> simpa [Covered, Dec] using hc
-    refine ⟨inv_set st hinv i k v ttl cond hdec, ?_⟩
-    simp only [qstep, deliverAll, step]
-    split <;> exact domOK_exec _ _ rfl hdom
-  | delete i k =>
-    refine ⟨inv_delete st hinv i k, ?_⟩
-    simp only [qstep, deliverAll, step]
-    exact domOK_exec _ _ rfl hdom
-  | getMany i ks => exact ⟨inv_getMany st hinv i ks, hdom⟩
-  | incr i k b ttl =>
-    have hp : pxOf ttl = none := hc
-    refine ⟨inv_incr st hinv i k b ttl hp, ?_⟩
-    simp only [qstep, deliverAll, step, hp]
-    (repeat' split) <;> exact domOK_exec _ _ rfl hdom
-  | deleteMany i ks =>
-    refine ⟨inv_deleteMany st hinv i ks, ?_⟩
-    simp only [qstep, deliverAll, step]
-    split
-    · exact hdom
-    · exact domOK_exec _ _ rfl hdom
-  | deleteMatch i pat =>
-    refine ⟨inv_deleteMatch st hinv i pat, ?_⟩
-    simp only [qstep, deliverAll, step]
-    split <;> exact domOK_exec _ _ rfl hdom
-  | expire i k ms =>
-    refine ⟨inv_expire st hinv i k ms hc, ?_⟩
-    simp only [qstep, deliverAll, step]
-    exact domOK_exec _ _ rfl hdom
-  | clear i =>
-    refine ⟨inv_clear st hinv i, ?_⟩
-    simp only [qstep, deliverAll, step, srvCmd, Srv.exec, Srv.execPrim, KS.flush]
-    intro k hk; simp at hk
-  | drop i => exact ⟨inv_drop st hinv i, hdom⟩
-  | reconnect i => exact ⟨inv_reconnect st hinv i, hdom⟩
-  | adv dt =>
-    refine ⟨inv_adv st hinv hdom dt, ?_⟩
-    simp only [qstep, deliverAll, step, advance, Srv.adv]
-    exact domOK_adv hdom dt
-  | _ => simp [Covered] at hc
-
 theorem inv2_init (isEnc : String → Bool) : Inv2 (St.init isEnc) := by
   refine ⟨⟨fun i => ⟨rfl, fun _ => ⟨rfl, fun k => rfl⟩⟩, ?_⟩, ?_⟩
   · intro i k e _ hf; simp [St.init, Client.init, Client.lfind] at hf
   · intro k hk; simp [St.init, Srv.init, KS.init] at hk
-
-theorem inv2_qrun (ops : List Op) : ∀ (st : St), Inv2 st → (∀ op ∈ ops, Covered st.isEnc op) → Inv2 (qrun st ops).1 := by
-  induction ops with
-  | nil => intro st h _; exact h
-  | cons op ops ih =>
-    intro st h hc
-    simp only [qrun]
-    apply ih _ (inv2_qstep st h op (hc op (by simp)))
-    intro op' hop'
-    rw [qstep_isEnc st op (hc op (by simp))]
-    exact hc op' (by simp [hop'])
 
 /-- under agreement a read answers what the server holds -/
 theorem get_eq_server (st : St) (ha : Agree st) (i : Nat) (k : String) :
